@@ -22,6 +22,23 @@ STR_KEYS = ['a', 'b', 'c', 'd', 'x', '_u']
 @st.composite
 def _case(draw):
     docs = draw(S.tagged_stages(min_stages=1, max_stages=4, notnew=True, density=3))
+    # premerge operators (!clear / !append / !extend / !prev) at string-keyed top-level positions of later stages;
+    # a !prev path is absolute, so it is rewritten with the wrapping prefix in the wrapped variant
+    if len(docs) >= 2 and draw(st.integers(0, 2)) == 0:
+        for _ in range(draw(st.integers(1, 2))):
+            d = docs[draw(st.integers(1, len(docs) - 1))]
+            earlier_keys = [k for dd in docs[:1] for k, _ in dd['items'] if isinstance(k, str)] or ['a']
+            key = draw(st.sampled_from(earlier_keys + ['zz']))
+            kind = draw(st.sampled_from(['clear', 'append', 'extend', 'prev']))
+            if kind == 'clear':
+                node = {'t': 'empty', 'tag': '!clear'}
+            elif kind in ('append', 'extend'):
+                node = tdoc.sq([tdoc.sc(draw(st.integers(0, 9))) for _ in range(draw(st.integers(0, 2)))], flow=True, tag='!' + kind)
+            else:
+                src = draw(st.sampled_from(earlier_keys))
+                node = tdoc.raw(src, '!prev')
+                key = 'moved'
+            d['items'] = [kv for kv in d['items'] if kv[0] != key] + [[key, node]]
     chain = draw(st.lists(st.sampled_from(STR_KEYS + [0, 1]), min_size=1, max_size=3))
     chain[0] = draw(st.sampled_from(STR_KEYS))    # a document root is a mapping with arbitrary keys; ints are fine deeper too
     sib = None
@@ -37,7 +54,26 @@ def strategy():
     return _case()
 
 
+def path_prefix(chain):
+    out = ''
+    for c_ in chain:
+        out += f'[{c_}]' if isinstance(c_, int) else ('.' if out else '') + str(c_)
+    return out
+
+
+def rewrite_prev(node, prefix):
+    out = dict(node)
+    if node.get('tag') == '!prev':
+        out['text'] = prefix + ('' if node['text'].startswith('[') else '.') + node['text']
+    if node['t'] == 'map':
+        out['items'] = [[k, rewrite_prev(v, prefix)] for k, v in node['items']]
+    elif node['t'] == 'seq':
+        out['items'] = [rewrite_prev(v, prefix) for v in node['items']]
+    return out
+
+
 def wrap(doc, chain):
+    doc = rewrite_prev(doc, path_prefix(chain))
     cur = doc
     for k in reversed(chain):
         if isinstance(k, int):
@@ -66,6 +102,9 @@ def classify(docs):
             for fk in ('prio', 'del', 'new'):
                 if n.get(fk) is not None:
                     labels.add(f'{fk}={n[fk]}')
+            if str(n.get('tag', '')) in ('!clear', '!append', '!extend', '!prev'):
+                labels.add('operator=' + n['tag'])
+                nt = True
     return nt, labels
 
 
